@@ -312,6 +312,28 @@ func c06Check1(k c06Case) (string, string) {
 				return k.Kind + "-roundtrip", fmt.Sprintf("GetFrom after AddTo(%v:%d, tid %x, attr %#x) = %v:%d err %v", net.IP(k.IP), k.Port, k.TID, k.Attr, gotIP, gotPort, gerr)
 			}
 		}
+		// (vi) the XOR pad is the message's transaction id, which is the struct field: a caller that assigned
+		// m.TransactionID after the header was written (and writes the header again before sending) gets the same bytes,
+		// and reads its address back from that very message in between
+		if k.Kind == "xor" {
+			h := new(stun.Message)
+			h.TransactionID = [12]byte{0xEE, 0xEE, 0xEE, 0xEE, 0xEE, 0xEE, 0xEE, 0xEE, 0xEE, 0xEE, 0xEE, 0xEE}
+			h.Type = stun.NewType(stun.Method(1), stun.MessageClass(2))
+			h.WriteHeader()
+			h.TransactionID = tid
+			a := stun.XORMappedAddress{IP: net.IP(k.IP), Port: k.Port}
+			if err := a.AddToAs(h, at); err != nil {
+				return "xor-addto-error", err.Error()
+			}
+			var g stun.XORMappedAddress
+			if gerr := g.GetFromAs(h, at); gerr != nil || g.Port != k.Port || !bytes.Equal(g.IP, wantIP) {
+				return "xor-roundtrip/transaction-id-assigned-on-the-field", fmt.Sprintf("header written, m.TransactionID assigned (%x), AddToAs(%v:%d, %#x), GetFromAs on that message = %v:%d err %v", k.TID, net.IP(k.IP), k.Port, k.Attr, g.IP, g.Port, gerr)
+			}
+			h.WriteHeader()
+			if !bytes.Equal(h.Raw, wantRaw) {
+				return "xor-wire-format/transaction-id-assigned-on-the-field", fmt.Sprintf("header written, m.TransactionID assigned (%x), AddToAs(%v:%d, %#x), WriteHeader: %x, RFC 5389 s15 prescribes %x", k.TID, net.IP(k.IP), k.Port, k.Attr, h.Raw[20:], wantRaw[20:])
+			}
+		}
 		// (v) the same read from inside a ForEach callback, and with other address-shaped attributes (the RFC 3489
 		// ones included) carrying a different address in front of it: a getter reads ITS attribute of THIS message
 		{
